@@ -184,6 +184,60 @@ func oC02(ix *Index) []Violation {
 	return out
 }
 
+// oC02Tune is the second sentence of C02: once TunePool(n) has returned, only jobs dispatched before
+// it may exceed n. Dispatch is not observable, so the rule is restricted to what is certain: a job
+// whose submission began after TunePool returned was dispatched under the new limit, and at the
+// moment the last of the in-flight jobs was dispatched all the others were counted. Hence, if every
+// in-flight job either entered before the return or was submitted after it, and at least one is of
+// the second kind, at most n are in flight. (A first version bounded "in transit" jobs by 1; that was
+// a false alarm of the check: several jobs can sit in node channels between dispatch and start.)
+func oC02Tune(ix *Index) []Violation {
+	var out []Violation
+	tunes := ix.ByOp["tune"]
+	for i, tc := range tunes {
+		if !tc.Returned() || tc.RetEv.E != "" {
+			continue
+		}
+		n := resolveConc(int(tc.CallEv.I))
+		end := ix.N
+		if i+1 < len(tunes) {
+			end = tunes[i+1].Call
+		}
+		in := map[int]int{} // job -> enter position
+		for pos := 0; pos < end; pos++ {
+			ev := ix.H[pos]
+			if ev.W != 0 {
+				continue
+			}
+			switch ev.K {
+			case "exit":
+				delete(in, ev.J)
+			case "enter":
+				in[ev.J] = pos
+				if pos < tc.Ret {
+					continue
+				}
+				certain, fresh := true, 0
+				for j, p := range in {
+					jr := ix.Jobs[j]
+					switch {
+					case p < tc.Ret:
+					case jr != nil && !jr.Pre && jr.Add.Call > tc.Ret:
+						fresh++
+					default:
+						certain = false
+					}
+				}
+				if certain && fresh > 0 && len(in) > n {
+					out = append(out, v("C02", "after-tune", "TunePool(%d) returned at %d; at %d there are %d invocations in progress, %d of them submitted after the call returned and the rest started before it", n, tc.Ret, pos, len(in), fresh))
+					return out
+				}
+			}
+		}
+	}
+	return out
+}
+
 // ---------------------------------------------------------------- C03
 
 func (ix *Index) curLimit(pos int) int {
@@ -200,28 +254,7 @@ func oC03(ix *Index) []Violation {
 	var out []Violation
 	out = append(out, oDeadlock("C03")(ix)...)
 	out = append(out, oLivelock("C03")(ix)...)
-	if len(ix.C.Cfg.Consumers) == 0 {
-		for _, p := range ix.Quiesc {
-			sn := ix.H[p].Sn
-			if sn == nil || !sn.OKSnap || sn.Status != "Running" || ix.modelState(p) != "Running" || ix.lifeInProgress(p) || ix.ctxCancelledBefore(p) {
-				continue
-			}
-			req := 0
-			wit := -1
-			for _, n := range ix.JobNums {
-				j := ix.Jobs[n]
-				if j.Accepted != 1 || (!j.Pre && (j.Add.Ret < 0 || j.Add.Ret > p)) || j.firstEnter(ix.N) < p || ix.optional(j, p) {
-					continue
-				}
-				req++
-				wit = n
-			}
-			if req > 0 && sn.InFlight < ix.curLimit(p) {
-				out = append(out, v("C03", "lost-wakeup", "quiescent at %d: %d job(s) pending (e.g. job %d), only %d of %d slots busy, worker Running, nobody can move: %+v", p, req, wit, sn.InFlight, ix.curLimit(p), *sn))
-				break
-			}
-		}
-	}
+	out = append(out, lostWakeups(ix, "C03")...)
 	if ix.finalRunning() && !ix.R.Rep.Deadlock {
 		for _, n := range ix.JobNums {
 			j := ix.Jobs[n]
@@ -231,6 +264,46 @@ func oC03(ix *Index) []Violation {
 		}
 	}
 	return out
+}
+
+// lostWakeups: at a quiescent (or settled) point with a stably Running worker, a pending job and a
+// free slot mean that nobody will ever dispatch it without a further API call.
+func lostWakeups(ix *Index, prop string) []Violation {
+	if len(ix.C.Cfg.Consumers) != 0 {
+		return nil
+	}
+	type pt struct {
+		p  int
+		sn *Snap
+	}
+	var pts []pt
+	for _, p := range ix.Quiesc {
+		pts = append(pts, pt{p, ix.H[p].Sn})
+	}
+	for _, s := range ix.snaps() {
+		if ix.H[s.pos].Op == "settle" {
+			pts = append(pts, pt{s.pos, s.sn})
+		}
+	}
+	for _, x := range pts {
+		p, sn := x.p, x.sn
+		if sn == nil || !sn.OKSnap || sn.Status != "Running" || ix.modelState(p) != "Running" || ix.lifeInProgress(p) || ix.ctxCancelledBefore(p) {
+			continue
+		}
+		req, wit := 0, -1
+		for _, n := range ix.JobNums {
+			j := ix.Jobs[n]
+			if j.Accepted != 1 || (!j.Pre && (j.Add.Ret < 0 || j.Add.Ret > p)) || j.firstEnter(ix.N) < p || ix.optional(j, p) {
+				continue
+			}
+			req++
+			wit = n
+		}
+		if req > 0 && sn.InFlight < ix.curLimit(p) {
+			return []Violation{v(prop, "lost-wakeup", "quiescent at %d: %d job(s) pending (e.g. job %d), only %d of %d slots busy, worker Running, nobody can move: %+v", p, req, wit, sn.InFlight, ix.curLimit(p), *sn)}
+		}
+	}
+	return nil
 }
 
 func (ix *Index) ctxCancelledBefore(p int) bool {
